@@ -355,6 +355,13 @@ func TestC10Subset(t *testing.T) {
 		o.MaxGlyphs = 60
 	}
 	rapid.Check(t, func(t *rapid.T) {
+		o := o
+		if k := rapid.IntRange(0, 19).Draw(t, "sizeClass"); k == 0 {
+			// around the sizes where a glyph index no longer fits a byte
+			o.MinGlyphs, o.MaxGlyphs = 250, 300
+		} else if k == 1 {
+			o.MinGlyphs, o.MaxGlyphs = 301, 3000
+		}
 		c := genfont.Gen(o).Draw(t, "font")
 		f := c.Font
 		n := f.NumGlyphs()
